@@ -660,24 +660,26 @@ def dyn_key(ty):
 
 
 class CallGraph:
-    """Whole-program call graph over local bodies.
+    """Whole-program call graph over local bodies, kept per call site.
 
-    Edges: resolved direct calls; closure / coroutine construction (a body that builds a closure
-    is assumed to be able to run it); fn items and closures passed as generic arguments of a
-    call (the callee may run them); fn items / closures mentioned as constants (fn pointers,
-    unsize-casts to `dyn Fn`). Calls through `dyn Fn*` / fn pointers are resolved to every body
-    that is address-taken anywhere in the program (sound, coarse).
+    site_edges[body] = [(bb, target, kind)] with kind:
+      'direct'  resolved direct call            'closure' closure/coroutine constructed here (may be run)
+      'garg'    fn/closure passed as generic argument of a call (callee may run it; the edge is also
+                recorded on the callee)          'fnref'   fn item mentioned as a value
+      'dyn:<key>' call through `dyn Fn*/Future` resolved to the bodies coerced to that object type
+      'trait'   virtual call of a trait method resolved to every local impl
+      'indirect' unresolved (fn pointer): any address-taken body
     """
 
     def __init__(self, prog):
         self.prog = prog
-        self.edges = {k: set() for k in prog.bodies}
+        self.site_edges = {k: [] for k in prog.bodies}
         self.ext = {k: [] for k in prog.bodies}       # external callee paths per body: (path, bb)
         self.addr_taken = set()
-        self.indirect_sites = {k: [] for k in prog.bodies}
-        self.dyn_impls = {}          # dyn key -> set of body keys behind it
-        self.garg_fns = {}           # generic body key -> fn/closure keys passed as generic args
-        self._generic_casts = []     # (body key, dyn key) unsize casts whose source is a type parameter
+        self.dyn_impls = {}
+        self.garg_fns = {}
+        generic_casts = []
+        dyn_sites = []
         for k, b in prog.bodies.items():
             live = b.reachable()
             for i, blk in enumerate(b.blocks):
@@ -690,7 +692,7 @@ class CallGraph:
                     if rv["k"] == "agg" and rv.get("agg") in ("closure", "coroutine", "coroutine_closure"):
                         ck = strip_generics(rv["def"])
                         if ck in prog.bodies:
-                            self.edges[k].add(ck)
+                            self.site_edges[k].append((i, ck, "closure"))
                     if rv["k"] == "cast" and "Unsize" in rv.get("cast", ""):
                         dk = dyn_key(rv.get("ty"))
                         if dk:
@@ -698,17 +700,15 @@ class CallGraph:
                             if srcs:
                                 self.dyn_impls.setdefault(dk, set()).update(x for x in srcs if x in prog.bodies)
                             else:
-                                self._generic_casts.append((k, dk))
+                                generic_casts.append((k, dk))
                     for c in rvalue_consts(rv):
                         if "fn" in c:
                             fk = strip_generics(c["fn"])
                             if fk in prog.bodies:
                                 self.addr_taken.add(fk)
-                                self.edges[k].add(fk)
+                                self.site_edges[k].append((i, fk, "fnref"))
                 t = blk["term"]
-                if t["t"] != "call":
-                    continue
-                if blk.get("cleanup"):
+                if t["t"] != "call" or blk.get("cleanup"):
                     continue
                 tgt = None
                 for p in callee_paths(t):
@@ -716,65 +716,60 @@ class CallGraph:
                         tgt = p
                         break
                 if tgt is not None:
-                    self.edges[k].add(tgt)
+                    self.site_edges[k].append((i, tgt, "direct"))
                 else:
                     ps = callee_paths(t)
                     if ps:
                         self.ext[k].append((ps[0], i))
-                    if "indirect" in t or t.get("rkind") == "virtual":
-                        self.indirect_sites[k].append(i)
-                    elif "resolved" not in t and "callee" in t and re.search(r"ops::function::Fn(Mut|Once)?::call", t["callee"]):
-                        # call of a generic `F: Fn*` parameter: resolved through the generic-argument
-                        # edges added at every call site of this body (see below), unless it is a dyn object
-                        if dyn_key((t.get("arg_tys") or [""])[0]):
-                            self.indirect_sites[k].append(i)
-                # callbacks passed as generic args / fn-item constants in args
+                    dec = strip_generics(t.get("callee", ""))
+                    if "indirect" in t:
+                        dyn_sites.append((k, i, "indirect", None))
+                    elif t.get("rkind") == "virtual" or ("resolved" not in t and re.search(r"ops::function::Fn(Mut|Once)?::call", dec)
+                                                         and dyn_key((t.get("arg_tys") or [""])[0])):
+                        if re.search(r"ops::function::Fn(Mut|Once)?::call|future::future::Future::poll", dec):
+                            dyn_sites.append((k, i, "dyn", dyn_key((t.get("arg_tys") or [""])[0])))
+                        elif "::" in dec:
+                            tr, m = dec.rsplit("::", 1)
+                            rx = re.compile(r"<.* as %s(<.*>)?>::%s" % (re.escape(tr), re.escape(m)))
+                            for bk in prog.bodies:
+                                if rx.fullmatch(bk):
+                                    self.site_edges[k].append((i, bk, "trait"))
                 for g in t.get("gargs", []):
                     for kk in ("fn", "closure"):
                         if kk in g:
                             gk = strip_generics(g[kk])
                             if gk in prog.bodies:
-                                self.edges[k].add(gk)
+                                self.site_edges[k].append((i, gk, "garg"))
                                 self.addr_taken.add(gk)
                                 if tgt is not None:
-                                    self.edges[tgt].add(gk)
+                                    self.site_edges[tgt].append((-1, gk, "garg"))
                                     self.garg_fns.setdefault(tgt, set()).add(gk)
                 for a in t["args"]:
                     c = op_const(a)
                     if c and "fn" in c:
                         fk = strip_generics(c["fn"])
                         if fk in prog.bodies:
-                            self.edges[k].add(fk)
+                            self.site_edges[k].append((i, fk, "fnref"))
                             self.addr_taken.add(fk)
-        # closures whose value escapes into a Box<dyn Fn> are address-taken as well: any closure
-        # constructed anywhere may be called indirectly; keep it coarse but sound
         for k, b in prog.bodies.items():
             if b.kind == "Closure":
                 self.addr_taken.add(k)
-        for (gk, dk) in self._generic_casts:
+        for (gk, dk) in generic_casts:
             self.dyn_impls.setdefault(dk, set()).update(self.garg_fns.get(gk, ()))
-        for k, sites in self.indirect_sites.items():
-            for i in sites:
-                t = prog.bodies[k].blocks[i]["term"]
-                dk = dyn_key((t.get("arg_tys") or [""])[0]) if "indirect" not in t else None
-                cands = self.dyn_impls.get(dk) if dk else None
-                dec = strip_generics(t.get("callee", ""))
-                if "indirect" not in t and not re.search(r"ops::function::Fn(Mut|Once)?::call|future::future::Future::poll", dec) and "::" in dec:
-                    # virtual call of an ordinary trait method: every local impl of that method
-                    tr, m = dec.rsplit("::", 1)
-                    rx = re.compile(r"<.* as %s(<.*>)?>::%s" % (re.escape(tr), re.escape(m)))
-                    self.edges[k] |= {b for b in prog.bodies if rx.fullmatch(b)}
-                    continue
-                if cands:
-                    # a `dyn Trait` call reaches the bodies that were coerced to that object type
-                    self.edges[k] |= set(cands)
-                else:
-                    # unknown receiver (fn pointer, foreign dyn): any address-taken body
-                    self.edges[k] |= {"<indirect>"}
-        self.edges["<indirect>"] = set(self.addr_taken)
+        for (k, i, kind, dk) in dyn_sites:
+            cands = self.dyn_impls.get(dk) if (kind == "dyn" and dk) else None
+            if cands:
+                for c in sorted(cands):
+                    self.site_edges[k].append((i, c, "dyn:" + dk))
+            else:
+                self.site_edges[k].append((i, "<indirect>", "indirect"))
+        self.site_edges["<indirect>"] = [(-1, a, "indirect") for a in sorted(self.addr_taken)]
         self.ext["<indirect>"] = []
+        self.edges = {k: {t for (_, t, _) in v} for k, v in self.site_edges.items()}
 
-    def reachable(self, roots, stop=frozenset(), indirect=True):
+    def reachable(self, roots, stop=frozenset(), indirect=True, site_filter=None, dyn_override=None):
+        """Bodies reachable from roots. site_filter(body_key, bb, target, kind) -> False drops that
+        edge; dyn_override maps a dyn key to the only bodies it may denote in this query."""
         seen = set()
         st = [r for r in roots]
         while st:
@@ -784,7 +779,12 @@ class CallGraph:
             if x == "<indirect>" and not indirect:
                 continue
             seen.add(x)
-            st.extend(self.edges.get(x, ()))
+            for (bb, t, kind) in self.site_edges.get(x, ()):
+                if dyn_override is not None and kind.startswith("dyn:") and kind[4:] in dyn_override and t not in dyn_override[kind[4:]]:
+                    continue
+                if site_filter is not None and not site_filter(x, bb, t, kind):
+                    continue
+                st.append(t)
         return seen
 
     def callers_of(self, key):
@@ -801,7 +801,7 @@ class CallGraph:
                     out.append((k, bb, p))
         return out
 
-    def chain(self, root, target, stop=frozenset(), indirect=True):
+    def chain(self, root, target, stop=frozenset(), indirect=True, site_filter=None, dyn_override=None):
         """A call chain root -> ... -> target (list of body keys) or None."""
         prev = {root: None}
         dq = deque([root])
@@ -813,10 +813,14 @@ class CallGraph:
                     out.append(x)
                     x = prev[x]
                 return list(reversed(out))
-            for y in sorted(self.edges.get(x, ())):
+            for (bb, y, kind) in sorted(self.site_edges.get(x, ())):
                 if y in prev or y in stop:
                     continue
                 if y == "<indirect>" and not indirect:
+                    continue
+                if dyn_override is not None and kind.startswith("dyn:") and kind[4:] in dyn_override and y not in dyn_override[kind[4:]]:
+                    continue
+                if site_filter is not None and not site_filter(x, bb, y, kind):
                     continue
                 prev[y] = x
                 dq.append(y)
